@@ -28,9 +28,12 @@ def run(tier, runner):
     from ..rules import round6
     r_rp = round6.reserve_post(progs + real)
     r_rp.require(2, 'reserve members (dynamic and fixed-capacity vectors)')
+    from ..rules import objlayout
+    r_gl = objlayout.grow_layout([p_ for p_ in progs if 'flavour' in p_.meta])
+    r_gl.require(4, 'grow / shrink / resetToSmall instantiations of the vector bases')
     return {
-        'results': [r_cs, r_gg, r_geo, r_st, r_cd, r_eo, r_ns, r_ms, r_rp],
-        'explanation': 'RESERVE-POST: every path through reserve(n) hands the request to grow / the base reserve or has compared n with capacity() itself (path-sensitive): after reserve(n), capacity() >= n whatever the inline capacity.  NEED-SIZE: capacity requests derive from element counts, not from the capacity() of another container; MAX-SIZE: max_size() is the size_type maximum (the clamp of SafeNextCapacity) or, for fixed vectors, the capacity - so capacity() <= max_size().  CAP-STABLE: call-graph exclusion - from erase/clear/pop_back/assign/resize/insert/push_back/emplace*/append/copy-assignment no '
+        'results': [r_cs, r_gg, r_geo, r_st, r_cd, r_eo, r_ns, r_ms, r_rp, r_gl],
+        'explanation': 'GROW-LAYOUT: grow / shrink / resetToSmall of SmallVectorBase and StdVectorBase are interpreted over the whole object (size words as linear forms, storage pointer, inline / owned / new block in one index space, allocator events recorded) once per state of the inline encoding: afterwards all size() elements are in the designated storage in order, nothing else is alive, the words decode to the same size and the new capacity (or to the inline state with the full marker exactly when size == N), the old block was given back exactly once with its capacity and the requested block is the one pointed to.  RESERVE-POST: every path through reserve(n) hands the request to grow / the base reserve or has compared n with capacity() itself (path-sensitive): after reserve(n), capacity() >= n whatever the inline capacity.  NEED-SIZE: capacity requests derive from element counts, not from the capacity() of another container; MAX-SIZE: max_size() is the size_type maximum (the clamp of SafeNextCapacity) or, for fixed vectors, the capacity - so capacity() <= max_size().  CAP-STABLE: call-graph exclusion - from erase/clear/pop_back/assign/resize/insert/push_back/emplace*/append/copy-assignment no '
                        'path reaches an allocator request, release, shrink or resetToSmall except through grow, so these operations can neither lower '
                        'capacity nor move the buffer when the result fits.  GROW-GUARD: every grow is conditioned on capacity()<needed or size()==capacity() '
                        'and grows to the compared request (reserve included: after reserve(n) capacity()>=n by GEO exact path).  GEO: grow never lowers capacity.  STEAL: moving from / swapping heap-backed vectors hands the buffer over without any element operation; EACH-OTHER: swap2 adjusts capacities only where the buffers cannot simply be exchanged (canSwapDynStorage false), so two heap-backed vectors are never reallocated by a swap.  CHECK-DOM: every growth of the size is dominated by a capacity check of the destination (structural half of size() <= capacity()).',
